@@ -276,7 +276,20 @@ def r4_structure(P, rep, ctx):
         setdef = any("setdefault" in norm(g.nodes[i].stmt) for i in dsc)
         ok = ok and bool(dsc) and (setdef or (bool(mks) and bool(absent) and f.all_hit_before(mks, edges=absent, src=SL) and all(f.hit_before(SL, nodes=mks, src_edge=e) for e in absent if SL in g.reach(f.heads([e]))))) and f.hit_before(SL, nodes=dsc, edges=dot, src_edge=(SL, "iter"))
     rep.check(ok, "C19.R4", fi.qual, "each path segment (except '.') creates its dict when absent and descends into it", fi.loc(), construct="segment loop", message="the directory-chain loop of dir_hashsums no longer creates missing dicts / descends for every segment")
-    bt = [t.idx for t in ctx.cfg(P.func(f"{H}.hashsum")).nodes if t.kind == "test" and norm(t.exprs[0]) == "isinstance(data, bytes)"]
+    hsfi = P.func(f"{H}.hashsum")
+    hsf = F(ctx, hsfi)
+    hdp = hsfi.params[0]
+    isb = hsf.tests(f"isinstance({hdp}, bytes)")
+    wraps = [i for i, v, b in hsf.stores("__s") if norm(v) == f"BytesIO({hdp})"]
+    bt = bool(isb) and bool(wraps) and hsf.all_hit_before(wraps, edges=isb)
+    if not bt:
+        # the same decision as a conditional expression
+        for x in ast.walk(hsfi.node):
+            if isinstance(x, ast.IfExp):
+                a_, neg = MM.polarity(x.test)
+                yes, no = (x.orelse, x.body) if neg else (x.body, x.orelse)
+                if norm(a_) == f"isinstance({hdp}, bytes)" and norm(yes) == f"BytesIO({hdp})" and norm(no) == hdp:
+                    bt = True
     rep.check(bool(bt), "C19.R4", f"{H}.hashsum", "bytes input is wrapped exactly when it is bytes", fi.loc(), construct="bytes test", message="hashsum wraps non-bytes input / does not wrap bytes")
     from .common import require_total
 
